@@ -129,23 +129,9 @@ func c03(r *ev.Run, replay string) {
 		})
 	})
 	// (2) every field of every kind, one at a time, over its whole value alphabet
-	var bases []*wire.N
-	seen := map[string]bool{}
-	corpus.Controller(false, func() bool { return false }, func(string, bool) {}, func(n *wire.N) {
-		// one base per distinct set of element kinds: enough to reach every field of every kind
-		ks := map[string]bool{}
-		kindsIn(n, ks)
-		key := rootSig(n)
-		for k := range ks {
-			if !seen[key+"|"+k] {
-				seen[key+"|"+k] = true
-				key = ""
-			}
-		}
-		if key == "" && modelSize(n) < 4096 {
-			bases = append(bases, n)
-		}
-	})
+	sel := baseSelector{max: 4096}
+	corpus.Controller(false, func() bool { return false }, func(string, bool) {}, sel.offer)
+	bases := sel.bases
 	r.Set("variation_bases", len(bases))
 	var nvar int64
 	for _, base := range bases {
